@@ -2,20 +2,40 @@
   Replays an annotated engine trace produced by the Go harness on the Lean
   engine model and reports every line on which model and implementation
   disagree (results, returned ids, contents read, allocator snapshots).
+  `Open` of an existing file — plain, or with `FlagUpdMaxSize` (`resize-grow` / `resize-shrink` /
+  `resize-unbound` lines) — is computed by `FileSt.resizeWith` (Model/Resize.lean) from the committed
+  state and the two header fields the state does not carry (limit in bytes, data end marker); the
+  snapshot that follows is compared like every other one. Only after an Open that FAILED (injected
+  I/O fault) the next snapshot is adopted; a release transaction that failed inside an Open that
+  succeeded is matched against the model's state for a failed release. Both are counted separately.
 -/
 import TxVerif.Model.Engine
 import TxVerif.Model.AllocOps
+import TxVerif.Model.Resize
 namespace TxVerif
 
 structure EngSt where
   f : FileSt := {}
   tx : Option TxSt := none
   created : Bool := false
-  resync : Bool := false      -- adopt the next snapshot line (after an unmodelled operation)
-  resized : Bool := false     -- the maximum size was changed on open (allocWF does not cover shrinking)
+  resync : Bool := false      -- adopt the next snapshot line (after a failed Open with max-size update)
+  resized : Bool := false     -- the maximum size was lowered on open (allocWF does not cover shrinking)
   /-- the data end marker in the file header, as far as known: it is rewritten by commits that change the
-      allocator state; `absorbOverflow` raises the in-memory marker only. `none` after a resize. -/
+      allocator state and by a committed release transaction of a shrinking Open; `absorbOverflow` raises the
+      in-memory marker only. `none` (unknown) after an Open that failed half way. -/
   diskDE : Option Nat := none
+  /-- `maxSize` in the file header (bytes; not necessarily page aligned when the file was created with
+      such a size, page aligned after a max-size update, 0 = no limit) -/
+  hdrMax : Nat := 0
+  lastOptMax : Nat := 0       -- `Options.MaxSize` of the last Open
+  resizesReplayed : Nat := 0  -- `resize-*` lines computed by the model (`FileSt.resizeWith`)
+  resizesAdopted : Nat := 0   -- `resize-*` lines after which the implementation's snapshot was adopted
+  /-- `resize-shrink` lines whose release transaction succeeds in the model but failed in the implementation
+      (it is allowed to fail, e.g. under an injected I/O fault): the model's state for the failed release
+      (`FileSt.resizeShrinkFailed`) was compared instead -/
+  resizesRelFailed : Nat := 0
+  /-- the alternative outcome (state, persisted data end marker) the next snapshot may show -/
+  alt : Option (FileSt × Nat) := none
   alloc0 : Alloc := {}        -- allocator state when the running transaction began
   checked : Nat := 0
   mismatches : List String := []
@@ -91,7 +111,12 @@ def adoptSnap (s : EngSt) (toks : List String) : EngSt :=
   let wp := parseRuns ((field toks "wp").getD "-")
   let wm := parsePairs ((field toks "map").getD "-")
   let f2 : FileSt := { s.f with alloc := a2, walPages := wp, walMap := wm }
-  { s with f := f2, resync := false }
+  -- the header's limit after an Open that failed half way (the max-size update may or may not have reached
+  -- the disk): what the implementation shows, unless that is explained by the known header / the options
+  let ps := a.pageSize
+  let hm := if mx == s.hdrMax / ps then s.hdrMax
+            else if s.hdrMax == 0 && mx == s.lastOptMax / ps then 0 else mx * ps
+  { s with f := f2, resync := false, hdrMax := hm }
 
 /-- end of a transaction: the model state must satisfy the well-formedness the theorems assume
     (validates on real histories that the hypotheses are met; skipped once a resize happened) -/
@@ -99,6 +124,50 @@ def endTx (s : EngSt) (f : FileSt) : EngSt :=
   let s := { s with f := f, tx := none }
   if s.resized || allocWF f.alloc then s
   else { s with mismatches := s.mismatches ++ [s!"model invariant allocWF violated: {snapLine f none}"] }
+
+/-- would the commit write the end markers into the header (`allocCommitState.updated`)? -/
+def commitWritesMarkers (f : FileSt) (tx : TxSt) : Bool :=
+  let newWal := mappingUpdate f.walMap tx
+  let ckpt := tx.walLimit > 0 && newWal.length ≥ tx.walLimit
+  let walUpd := ckpt || tx.walUpdated
+  let (f1, tx1, _) := if ckpt then doCheckpoint f tx else (f, tx, [])
+  let newWal := if ckpt then tx1.walNew else newWal
+  let tx2 := if walUpd then { tx1 with ta := metaFreeIds tx1.ta f1.walPages } else tx1
+  let nwal := if walUpd then predictWalPages newWal.length f1.alloc.pageSize else 0
+  tx2.ta.updated || nwal > 0
+
+/-- `Open` of an existing file (plain, or with `FlagUpdMaxSize` on the `resize-*` lines): the model
+    computes the state from the committed in-memory state and the two header fields it does not
+    carry (persisted limit in bytes, persisted data end marker); the next `S` line is compared. -/
+def openExisting (s : EngSt) (rest : List String) (line : String) (isResize : Bool) : EngSt :=
+  let failed := !(line.endsWith "=> ok")
+  let s := { s with lastOptMax := fieldNat rest "maxsize" }
+  match s.diskDE, failed with
+  | some d, false =>
+    let ps := s.f.alloc.pageSize
+    let optMax := fieldNat rest "maxsize"
+    let upd := (fieldNat rest "flags" / 4) % 2 == 1
+    let k := rkindBytes s.hdrMax optMax upd
+    let n := optMax / ps
+    -- the header's limit and data end marker
+    let f1 : FileSt := { s.f with alloc := { s.f.alloc with maxPages := s.hdrMax / ps, data := { s.f.alloc.data with endMarker := d } } }
+    let r := f1.resizeWith k n
+    let hm := match k with
+      | .same => s.hdrMax
+      | .bound => s.hdrMax
+      | _ => n * ps
+    let alt :=
+      if r.2 != ReleaseRes.done then none
+      else if k == RKind.shrink then some (f1.reopen.resizeShrinkFailed n, d)
+      else if k == RKind.boundShrink then some ((f1.openAt n d).resizeShrinkFailed n, d)
+      else none
+    let s := { s with f := r.1, tx := none, diskDE := some (hdrDataEndAfter d r), hdrMax := hm, alt := alt,
+                      resized := s.resized || k == RKind.shrink || k == RKind.bound || k == RKind.boundShrink }
+    if isResize then { s with resizesReplayed := s.resizesReplayed + 1 } else s.ok
+  | _, _ =>
+    -- failed open-time update or unknown header: adopt the implementation's snapshot
+    let s := { s with f := s.f.reopen, tx := none, resync := true, resized := true, diskDE := none }
+    if isResize then { s with resizesAdopted := s.resizesAdopted + 1 } else s.ok
 
 /-- process one trace line -/
 def engStep (s : EngSt) (line : String) : EngSt :=
@@ -112,23 +181,26 @@ def engStep (s : EngSt) (line : String) : EngSt :=
   | "S" :: rest =>
     if s.resync then (adoptSnap s rest).ok else
     let m := snapLine s.f s.tx
-    if m == line then s.ok else s.miss line s!"snapshot differs, model: {m}"
+    if m == line then { s with alt := none }.ok else
+    match s.alt with
+    | some (f2, d2) =>
+      if snapLine f2 s.tx == line then
+        { s with f := f2, diskDE := some d2, alt := none, resizesRelFailed := s.resizesRelFailed + 1 }.ok
+      else s.miss line s!"snapshot differs, model: {m}"
+    | none => s.miss line s!"snapshot differs, model: {m}"
   | "open" :: rest =>
     if rkind != "ok" then s.miss line "open failed" else
     if !s.created then
       let ps := fieldNat rest "ps"
       let f0 := FileSt.create ps (fieldNat rest "maxsize" / ps) (fieldNat rest "meta")
-      { s with f := f0, created := true, tx := none, diskDE := some f0.alloc.data.endMarker }.ok
-    else
-      match s.diskDE with
-      | some d =>
-        -- the allocator state is read from the header: persisted data end marker, then `absorbOverflow`
-        let f1 : FileSt := { s.f with alloc := { s.f.alloc with data := { s.f.alloc.data with endMarker := d } } }
-        { s with f := f1.reopen, tx := none }.ok
-      | none => { s with f := s.f.reopen, tx := none, resync := true }.ok   -- persisted marker unknown after a resize
-  | "resize-grow" :: _ => { s with resync := true, resized := true, tx := none, f := s.f.reopen, diskDE := none }
-  | "resize-shrink" :: _ => { s with resync := true, resized := true, tx := none, f := s.f.reopen, diskDE := none }
-  | "resize-unbound" :: _ => { s with resync := true, resized := true, tx := none, f := s.f.reopen, diskDE := none }
+      let unbound := (fieldNat rest "flags" / 2) % 2 == 1
+      let mx := if unbound then 0 else fieldNat rest "maxsize"
+      let f0 := if unbound then FileSt.create ps 0 (fieldNat rest "meta") else f0
+      { s with f := f0, created := true, tx := none, diskDE := some f0.alloc.data.endMarker, hdrMax := mx }.ok
+    else openExisting s rest line false
+  | "resize-grow" :: rest => openExisting s rest line true
+  | "resize-shrink" :: rest => openExisting s rest line true
+  | "resize-unbound" :: rest => openExisting s rest line true
   | ["closefile"] => s
   | "begin" :: rest =>
     if rkind != "ok" then s.miss line "begin failed" else
@@ -240,11 +312,12 @@ def engStep (s : EngSt) (line : String) : EngSt :=
           if res == "err:commitfail" && flushWouldFail f tx then (endTx s (txAbort f tx)).ok
           else s.miss line s!"model: pages left unflushed {tx.unflushed}"
         else
+          let (f0, tx0) := (f, tx)
           let (f, r, copied) := commitAfterFlush f tx
           let want := match r with
             | .ok => "ok" | .flushFailed => "err:commitfail" | .walOom => "err:commitfail/oom" | .allocOom => "err:commitfail/oom"
           -- a commit that changed the allocator state rewrites the end markers in the header
-          let s := if r == .ok && f.alloc != s.alloc0 then { s with diskDE := some f.alloc.data.endMarker } else s
+          let s := if r == .ok && commitWritesMarkers f0 tx0 then { s with diskDE := some f.alloc.data.endMarker } else s
           if res == want && sortPairs ck == sortPairs copied then (endTx s f).ok
           else s.miss line s!"model: {want}, checkpoint copies {copied}"
     | none => s.miss line "no transaction"
